@@ -5,6 +5,7 @@ import (
 	"bytes"
 	"encoding/json"
 	"fmt"
+	"gosym/interp"
 	"os"
 	"os/exec"
 	"path/filepath"
@@ -324,7 +325,24 @@ func runReplayFile(path string) int {
 	return 0
 }
 
+// runSelftest validates the trusted base: (1) the calendar closed forms and the order lemma of the
+// time model, exhaustively against the time package; (2) the library models, by exploring small
+// harnesses that only call library functions on symbolic strings and replaying EVERY path natively
+// (registry entry SELF), so that every observation of every model path is compared with what the
+// real library returns.
 func runSelftest() int {
-	fmt.Println("selftest: see engine/selftest (go test ./...)")
+	t0 := time.Now()
+	n, err := interp.SelfTestCalendar()
+	if err != nil {
+		fmt.Printf("SELFTEST calendar FAILED after %d dates: %v\n", n, err)
+		return 1
+	}
+	fmt.Printf("SELFTEST calendar ok: %d dates checked (day number, month length, successor, predecessor, order) in %.1fs\n", n, time.Since(t0).Seconds())
+	rc := runProperty("SELF", "quick", "", "", 0, false)
+	if rc != 0 {
+		fmt.Printf("SELFTEST models FAILED (exit %d): a model path disagrees with the real library, see the INCONCLUSIVE lines\n", rc)
+		return 1
+	}
+	fmt.Println("SELFTEST models ok: every explored path of the library-model harnesses replayed natively with identical observations")
 	return 0
 }
